@@ -66,6 +66,7 @@ fn dispatch(id: &str, tier: Tier) -> i32 {
         "C01" => props::c01::run(tier),
         "C02" => props::c02::run(tier),
         "C03" => props::c03::run(tier),
+        "C04" => props::c04::run(tier),
         "C05" => props::c05::run(tier),
         "C06" => props::c06::run(tier),
         "C07" => props::c07::run(tier),
@@ -73,6 +74,7 @@ fn dispatch(id: &str, tier: Tier) -> i32 {
         "C09" => props::c09::run(tier),
         "C11" => props::c11::run(tier),
         "C12" => props::c12::run(tier),
+        "C13" => props::c13::run(tier),
         "C14" => props::c14::run(tier),
         "C15" => props::c15::run(tier),
         "C16" => props::c16::run(tier),
